@@ -292,6 +292,44 @@ def match_files_order(k: int, n: int) -> bool:
     return fin(match_files(Path("/d"), permuted) == match_files(Path("/d"), base))
 
 
+class _PermStrSet(set):
+    """`set(...)` stand-in in code_directory's namespace: iterates its (string) elements in an arbitrary order - what
+    the hash seed decides for a real set of strings; ORDER permutes the canonical order.  Differences keep the kind."""
+
+    ORDER = [0, 1, 2]
+
+    def __iter__(self):
+        items = sorted(set.__iter__(self))
+        idx = [i for i in _PermStrSet.ORDER if i < len(items)] + [i for i in range(len(items)) if i not in _PermStrSet.ORDER]
+        return iter([items[i] for i in idx])
+
+    def __sub__(self, other):
+        return _PermStrSet(set.__sub__(self, other))
+
+
+def _match_files_under_set_order(order, files):
+    import codemodder.code_directory as cd
+
+    cd.set = _PermStrSet
+    _PermStrSet.ORDER = order
+    try:
+        return cd.match_files(Path("/d"), files)
+    finally:
+        del cd.set
+
+
+def match_files_hash_order(k1: int, k2: int, n: int) -> bool:
+    """match_files: the order of the selected files does not depend on the iteration order of the intermediate sets
+    of path strings (which the hash seed decides) - also for paths that differ only in letter case.
+    pre: 2 <= n <= 3
+    post: _
+    """
+    base = [Path("/d/pkg/Config.py"), Path("/d/pkg/config.py"), Path("/d/a.py")][:n]
+    r1 = _match_files_under_set_order(perm(k1), base)
+    r2 = _match_files_under_set_order(perm(k2), base)
+    return fin(r1 == r2 and len(r1) == n)
+
+
 class _Parser(bp.BaseParser):
     @property
     def file_type(self):
@@ -346,6 +384,7 @@ def warmup():
     sibling_independence(3, 1, 4)
     registry_order(0, 3, 1, 2)
     match_files_order(4, 3)
+    match_files_hash_order(1, 4, 3)
     manifest_discovery_order(0, 5)
 
 
@@ -380,6 +419,7 @@ SPEC = {
         Xh("scheduling", 400, 900),
         Xh("sibling_independence", 300, 600),
         Xh("registry_order", 200, 400),
+        Xh("match_files_hash_order", 100, 200),
         Xh("match_files_order", 120, 300),
         Xh("manifest_discovery_order", 120, 300),
         Xh("planted_order_leak", 60, 120, twin=False, expect="refuted"),
